@@ -114,6 +114,32 @@ func hostileBytes(c *fw.Ctx, scale int, emit emitFn) {
 			emit("model-mutant", projectJob(id("mm"), q, false))
 		}
 	}
+	// user types that refer to each other in exponentially many ways: @t<i> refers to @t<i+1> and @t<i+2> - through properties,
+	// array items, a union, allOf + property - 12 to 200 types
+	for _, n := range []int{12, 24, 30, 36, 50, 200} {
+		for kind := 0; kind < 4; kind++ {
+			var sb strings.Builder
+			sb.WriteString("JSIGHT 0.3\n")
+			for i := 0; i < n; i++ {
+				switch kind {
+				case 0:
+					sb.WriteString(fmt.Sprintf("TYPE @t%d\n  {\"a\": @t%d, \"b\": @t%d}\n", i, i+1, i+2))
+				case 1:
+					sb.WriteString(fmt.Sprintf("TYPE @t%d\n  @t%d | @t%d\n", i, i+1, i+2))
+				case 2:
+					sb.WriteString(fmt.Sprintf("TYPE @t%d\n  {\"a\": [@t%d], \"b\": @t%d // {optional: true}\n  }\n", i, i+1, i+2))
+				case 3:
+					sb.WriteString(fmt.Sprintf("TYPE @t%d\n  {\"a\": @t%d | @t%d, \"c\": @t%d}\n", i, i+1, i+2, i+1))
+				}
+			}
+			sb.WriteString(fmt.Sprintf("TYPE @t%d\n  {\"k\": 1}\nTYPE @t%d\n  {\"m\": \"s\"}\nGET /a\n  200 @t0\n", n, n+1))
+			emit("type-chain", singleJob(id("tchain"), []byte(sb.String()), false))
+		}
+	}
+	// deeply nested schemas: arrays, objects and both, as a TYPE and as a response body, around the limit of 1000 levels and far beyond
+	for _, d := range deepNestingDocs() {
+		emit("deep-nesting", singleJob(id("deep"), d, false))
+	}
 	// long runs of one byte value around the limits of the error quote (197..202 bytes) and far beyond, as a whole file, as a line
 	// after a valid prologue, inside a parameter and in an included file
 	for _, bv := range []byte{0x80, 0xBF, 0xC3, 0xE2, 0xF0, 0xFF, 0x01, ' ', '\t', 'a', '"', '(', '#', '/', '{', '@'} {
@@ -365,3 +391,38 @@ func includeGraphs(c *fw.Ctx, sampled int, emit emitFn) {
 }
 
 func pick(r *rand.Rand, ss []string) string { return ss[r.Intn(len(ss))] }
+
+// deepNestingDocs: schemas nested n levels deep (arrays, objects, alternating), in a TYPE and in a response body.
+func deepNestingDocs() [][]byte {
+	var out [][]byte
+	for _, n := range []int{50, 400, 999, 1000, 1001, 2500, 5200, 12000} {
+		for kind := 0; kind < 3; kind++ {
+			var open, close strings.Builder
+			for i := 0; i < n; i++ {
+				switch {
+				case kind == 0 || (kind == 2 && i%2 == 0):
+					open.WriteString("[")
+					close.WriteString("]")
+				default:
+					open.WriteString("{\"a\":")
+					close.WriteString("}")
+				}
+			}
+			body := open.String() + "1" + reverseBrackets(close.String())
+			if kind == 0 {
+				body = open.String() + reverseBrackets(close.String())
+			}
+			out = append(out, []byte("JSIGHT 0.3\nTYPE @deep\n  "+body+"\nGET /a\n  200 any\n"))
+			out = append(out, []byte("JSIGHT 0.3\nGET /a\n  200\n    "+body+"\n"))
+		}
+	}
+	return out
+}
+
+func reverseBrackets(s string) string {
+	b := []byte(s)
+	for i, j := 0, len(b)-1; i < j; i, j = i+1, j-1 {
+		b[i], b[j] = b[j], b[i]
+	}
+	return string(b)
+}
